@@ -118,9 +118,22 @@ func (w *world) checkRoots(id string) {
 func (w *world) history(id string, check bool) {
 	blocks := verifParam("B", 2)
 	maxN := verifParam("N", 4)
+	first := verifParam("F", 0) // F > 0: the first block adds exactly F leaves (cheap way to reach big forests)
 	for k := 0; k < blocks; k++ {
 		v := w.rm.view()
-		b := w.rm.refBlock(v, verifParam("D", 2), refMin(verifParam("A", 2), maxN-len(w.rm.leaves)))
+		var b *refBlockT
+		if k == 0 && first > 0 {
+			b = &refBlockT{}
+			for i := 0; i < first; i++ {
+				h := verifLeafHash("add")
+				for j := range b.adds {
+					verifAssume(h != b.adds[j])
+				}
+				b.adds = append(b.adds, h)
+			}
+		} else {
+			b = w.rm.refBlock(v, verifParam("D", 2), refMin(verifParam("A", 2), maxN-len(w.rm.leaves)))
+		}
 		w.block(b, id)
 		if check {
 			w.checkRoots(id)
